@@ -231,7 +231,7 @@ func tarNames(fs []TarFile) []string {
 
 var specC14Load = Register(&Spec[DebCase]{
 	Prop: "C14", Name: "load",
-	Rule: "format-2.0 .deb packages built by an independent builder from a model: control paragraph (C10 DEBIAN/control generator, incl. X- fields), control.tar with optional './' entry, './control' or 'control' at any position among md5sums/conffiles/postinst (containing look-alike 'Package:' text)/control.bak/triggers, data.tar of directories, regular files (0..4 KiB, sizes around the 512-byte tar block) and symlinks, control and data codec each from {none, gz, xz, bz2, lzma, zst}, extra '_*' members after or between, optional GNU '/' name terminators; loaded with Load or LoadFile and twice more. Oracle: typed control fields, unknown fields, SourceName, ControlExt/DataExt, Path, ArContent keys and bytes (in a third of the cases read through the indexed readers themselves, before the payload is touched), and the exact (name, type, content, link) sequence of the data tar equal the model; repeated loads agree. Non-trivial: control.tar has >= 2 files with control not first, or the two codecs differ; distinct by archive bytes.",
+	Rule: "format-2.0 .deb packages built by an independent builder from a model: control paragraph (C10 DEBIAN/control generator, incl. X- fields), control.tar with optional './' entry, './control' or 'control' at any position among md5sums/conffiles/postinst (containing look-alike 'Package:' text)/control.bak/triggers, data.tar of directories, regular files (0..4 KiB, sizes around the 512-byte tar block) and symlinks, control and data codec each from {none, gz, xz, bz2, lzma, zst} (xz members written with a 1, 8 or 16 MiB dictionary - 64 MiB too in the thorough tier), extra '_*' members after or between, optional GNU '/' name terminators; loaded with Load or LoadFile and twice more. Oracle: typed control fields, unknown fields, SourceName, ControlExt/DataExt, Path, ArContent keys and bytes (in a third of the cases read through the indexed readers themselves, before the payload is touched), and the exact (name, type, content, link) sequence of the data tar equal the model; repeated loads agree. Non-trivial: control.tar has >= 2 files with control not first, or the two codecs differ; distinct by archive bytes.",
 	Check: checkDebCase,
 })
 
